@@ -39,8 +39,7 @@ class Cell:
         self.v = np.asarray(nodes, dtype=float)  # [node][gdim]
         self.tdim = len(basix.topology(self.ct)) - 1
         self.gdim = self.v.shape[1]
-        if self.gdim != self.tdim:
-            raise Unsupported("manifold geometry")
+        self.manifold = self.gdim != self.tdim
         self.simplex = self.cellname in ("interval", "triangle", "tetrahedron")
         self.affine = self.simplex and self.sub.embedded_superdegree == 1
         self.refgeom = np.array(basix.geometry(self.ct), dtype=float)
@@ -55,8 +54,14 @@ class Cell:
             t = self.sub._element.tabulate(1, np.asarray([X], dtype=float))  # [1 + tdim][1][node][1]
             x = t[0][0, :, 0] @ self.v
             J = np.array([t[1 + d][0, :, 0] @ self.v for d in range(self.tdim)]).T  # gdim x tdim
-            detJ = float(np.linalg.det(J))
-            g = self._g[key] = (x, J, detJ, np.linalg.inv(J))
+            if not self.manifold:
+                detJ = float(np.linalg.det(J))
+                K = np.linalg.inv(J)
+            else:  # immersed manifold: pseudo-determinant and pseudo-inverse (tangential derivatives)
+                G = J.T @ J
+                detJ = float(np.sqrt(np.linalg.det(G)))
+                K = np.linalg.inv(G) @ J.T
+            g = self._g[key] = (x, J, detJ, K)
         return g
 
     def push(self, X):
@@ -94,6 +99,8 @@ class Cell:
         return n
 
     def facet_normal(self, f, X):
+        if self.manifold:
+            raise Unsupported("FacetNormal on a manifold")
         _, _, _, K = self.geom(X)
         n = K.T @ self.ref_facet_normal(f)
         return n / np.linalg.norm(n)
@@ -106,6 +113,8 @@ class Cell:
             return 1.0
         if self.tdim == 2:
             return float(np.linalg.norm(J @ ts[0]))
+        if self.manifold:
+            raise Unsupported("facets of a 3D manifold cell")
         return float(np.linalg.norm(np.cross(J @ ts[0], J @ ts[1])))
 
     def facet_points(self, f, Xf):
@@ -128,10 +137,12 @@ class Cell:
         self._need_affine("Circumradius")
         v = self.vertices()
         if self.tdim == 1:
-            return 0.5 * abs(v[1][0] - v[0][0])
+            return 0.5 * float(np.linalg.norm(v[1] - v[0]))
         if self.tdim == 2:
             a, b, c = (np.linalg.norm(v[i] - v[j]) for i, j in ((1, 2), (0, 2), (0, 1)))
             return a * b * c / (4 * self.volume())
+        if self.manifold:
+            raise Unsupported("Circumradius of a 3D manifold cell")
         A = 2 * (v[1:] - v[0])
         rhs = np.sum(v[1:] ** 2 - v[0] ** 2, axis=1)
         center = np.linalg.solve(A, rhs)
@@ -225,6 +236,8 @@ class FEFunction:
             t = tab[_deriv_index(tdim, counts)]  # [dof][vs]
             val = val + coef * (self.w @ t)
         out = np.array(val)
+        if cell.manifold and any(kind != "identity" for kind, _, _ in maps):
+            raise Unsupported("mapped (Piola / symmetric) elements on a manifold")
         for kind, a, b in maps:
             if kind == "contravariant":
                 out[a:b] = (J @ val[a:b]) / detJ
